@@ -7,6 +7,8 @@ use crate::verif_tape as tape;
 use crate::region::verif_region::*;
 use crate::mac::session::verif_session::*;
 
+/// re-export for front-end harnesses (module `session` is private to `mac`)
+pub(crate) fn any_joined_session() -> Session { session::verif_session::any_session() }
 pub(crate) fn any_mac(region: region::Configuration, state: State) -> Mac {
     let configuration = {
         let mut c = any_mac_configuration(&region);
